@@ -173,6 +173,9 @@ class C05(Engine):
 			c([op_run(enabled=False)])
 			c([op_run(), op_run(enabled=False), op_run()])
 			c([op_run(), {'op': 'touch', 'm': leaf, 'dt': 10**9}, op_run()])
+			# an older timestamp comes back with other content after later runs superseded its cached state (cp -p / rsync -t)
+			c([op_run(), {'op': 'edit', 'm': leaf, 'v': 1, 'dt': 10**9}, op_run(), {'op': 'edit', 'm': leaf, 'v': 2, 'reuse': 0}, op_run()])
+			c([op_run(), {'op': 'edit', 'm': top, 'v': 1, 'dt': 10**9}, op_run(), {'op': 'edit', 'm': top, 'v': 2, 'dt': 10**9}, op_run(), {'op': 'edit', 'm': top, 'v': 0, 'reuse': 1}, op_run(), {'op': 'edit', 'm': top, 'v': 1, 'reuse': 0}, op_run()])
 			# edits whose mtime moves by less than the coarsest granularity a cache key could have (1 us, just under 1 s, 1 s, 2 s)
 			c([op_run(), {'op': 'edit', 'm': leaf, 'v': 1, 'dt': 1000}, op_run(), {'op': 'edit', 'm': leaf, 'v': 2, 'dt': 10**9 - 1}, op_run(), {'op': 'edit', 'm': leaf, 'v': 0, 'dt': 2 * 10**8}, op_run()])
 			c([op_run(), {'op': 'edit', 'm': leaf, 'v': 1, 'dt': 10**9}, op_run(), {'op': 'edit', 'm': leaf, 'v': 0, 'dt': 10**9}, op_run()])
@@ -232,7 +235,10 @@ class C05(Engine):
 			if r == 'edit':
 				m = rng.choice(mods)
 				dt = rng.choice(SKEWS) if skew and rng.random() < 0.3 else rng.choice(deltas)
-				ops.append({'op': 'edit', 'm': m, 'v': rng.randrange(len(pool['variants'][m])), 'dt': dt})
+				e = {'op': 'edit', 'm': m, 'v': rng.randrange(len(pool['variants'][m])), 'dt': dt}
+				if skew and rng.random() < 0.2:
+					e['reuse'] = rng.randrange(4)
+				ops.append(e)
 			elif r == 'touch':
 				ops.append({'op': 'touch', 'm': rng.choice(mods), 'dt': rng.choice(deltas)})
 			elif r == 'run':
